@@ -112,6 +112,73 @@ def plan_C11(tier, seed):
             "assumptions": ["denoted grammar of a rendering computed by the harness (implicit codes 256.. in order of appearance)", "characters above 127 in character constants are outside the claim (char signedness)"]}
 
 
+def plan_C13(tier, seed):
+    b = BOUNDS["C13"][tier]
+    jobs = []
+    for mode in (0, 1, 2):
+        jobs += all_jobs("hC13.c", b["grammars"], b["all_len"], {"mode": mode, "rec": 1})
+    jobs += all_jobs("hC13.c", b["grammars2"], b["len2"], {"mode": 0, "rec": 0})
+    jobs += all_jobs("hC13.c", b["grammars2"], b["len2"], {"mode": 0, "two_parses": 1})
+    jobs += all_jobs("hC13.c", b["grammars2"], b["len2"], {"mode": 2, "two_parses": 1})
+    jobs += all_jobs("hC13.c", b["grammars2"], b["len2"], {"mode": 0, "via_text": 1})
+    wit = [{"harness": "hC13.c", "params": {"grammar": GIDX["G3"], "len": 3, "first": -1, "mode": 0, "witness": 1}}]
+    return {"jobs": jobs, "witness": wit, "bounds": b,
+            "rule": "one state = (grammar, token sequence, lookahead x one_parse x cost, allocator mode: caller alloc+free / caller alloc only / default allocator, one or two parses, definition by callbacks or text); the harness allocator keeps a table of live blocks, definition buffers are overwritten with symbolic garbage right after the defining call",
+            "assumptions": ["built-in VM memory checks (use after free, double free, out of bounds) are part of this check", TREE_ORACLE]}
+
+
+def plan_C15(tier, seed):
+    b = BOUNDS["C15"][tier]
+    jobs = [{"harness": "hC15.c", "params": {"mode": 0}}, {"harness": "hC15.c", "params": {"mode": 2}}]
+    for cs in range(5):
+        for n in b["ntok"]:
+            jobs.append({"harness": "hC15.c", "params": {"mode": 1, "codeset": cs, "ntok": n}, "weight": 10})
+    wit = [{"harness": "hC15.c", "params": {"mode": 2, "witness": 1}}]
+    return {"jobs": jobs, "witness": wit, "bounds": b,
+            "rule": "mode 0: one state per setter, both arguments symbolic over all int; mode 1: one state = (declared code set: dense with holes / sparse (hash table) / single / containing 0 / six codes, position of the symbolic token, lookahead, recovery) x one class of the 2^32 token codes that the lookup distinguishes, each class decided by one query; mode 2: four call sequences",
+            "assumptions": []}
+
+
+def plan_C14(tier, seed):
+    b = BOUNDS["C14"][tier]
+    jobs = [{"harness": "hC14.c", "params": {"steps": k, "objects": n}, "weight": (13 * n) ** k} for (k, n) in b["histories"]]
+    wit = [{"harness": "hC14.c", "params": {"steps": 2, "objects": 1, "witness": 1}}]
+    return {"jobs": jobs, "witness": wit, "bounds": b,
+            "rule": "one state = one history of `steps' API calls over `objects' grammar objects; each call is one of 13 actions (create, free, 6 definitions of which 4 are defective, 3 setting changes, parse of a sentence / a non-sentence) on a symbolic target; histories that call an action on a non-existing object are pruned by assumption",
+            "assumptions": ["reference for each call: the same call on a fresh object given only the target's current definition and settings", "built-in VM memory checks (use after free, double free, leaks via live-block count) are part of this check"]}
+
+
+def plan_C17(tier, seed):
+    b = BOUNDS["C17"][tier]
+    jobs = [{"harness": "hC17.c", "params": {"scenario": 0, "grammar": 0, "len": 0}}]
+    for g in b["grammars"]:
+        for how in range(4):
+            jobs.append({"harness": "hC17.c", "params": {"scenario": 1, "how": how, "grammar": GIDX[g], "len": 0}, "weight": 20})
+        jobs += all_jobs("hC17.c", [g], b["all_len"], {"scenario": 2}, split_from=1)
+    jobs += all_jobs("hC17.c", b["grammars"][:1], {"default": 2}, {"scenario": 2, "other": 1}, split_from=1)
+    jobs.append({"harness": "hC17.c", "params": {"scenario": 1, "how": 0, "other": 1, "grammar": GIDX[b["grammars"][0]], "len": 1}, "weight": 20})
+    wit = [{"harness": "hC17.c", "params": {"scenario": 1, "how": 0, "grammar": 0, "len": 0, "witness": 1}}]
+    return {"jobs": jobs, "witness": wit, "bounds": b,
+            "rule": "one state = (scenario: create / definition by callbacks, by text, defective, text with syntax error / parse of a token sequence under one of 24 configurations [/ with a second healthy object alive], index k of the failing libc allocation); k is symbolic in [0, A) where A is the number of allocations of the fault-free call measured in the same path",
+            "assumptions": ["the caller's parse_alloc never fails (static arena)", "single failure per call; the failing request is malloc/calloc/realloc of the C library"]}
+
+
+def plan_C19(tier, seed):
+    b = BOUNDS["C19"][tier]
+    D = ("OS_DEFAULT_SEGMENT_LENGTH=16", "VLO_DEFAULT_LENGTH=4")
+    jobs = []
+    for src, lib in (("hC19.c", "containers"),):
+        for e0 in range(b["hash_elements"]):
+            jobs.append({"harness": src, "defs": D, "lib": lib, "params": {"mode": 0, "steps": b["hash_steps"], "elements": b["hash_elements"], "hmax": b["hmax"], "size": 0, "el0": e0}, "weight": 1000})
+        for op0 in range(7):
+            jobs.append({"harness": src, "defs": D, "lib": lib, "params": {"mode": 1, "steps": b["os_steps"], "op0": op0}, "weight": 800})
+            jobs.append({"harness": src, "defs": D, "lib": lib, "params": {"mode": 2, "steps": b["vlo_steps"], "op0": op0}, "weight": 800})
+    wit = [{"harness": "hC19.c", "defs": D, "lib": "containers", "params": {"mode": 2, "steps": 2, "witness": 1}}]
+    return {"jobs": jobs, "witness": wit, "bounds": b, "defs": D,
+            "rule": "one state = one history of `steps' container operations from a fresh container with symbolic operation kinds and sizes from {0,1,15,16,17,24} bytes (segment length 16 / initial VLO length 4 so that growth and segment changes occur); hash table: elements with symbolic hash values, initial size 0 so that every history crosses expansions; after every operation the full abstract contents are compared with the model",
+            "assumptions": ["realloc always moves the block (VM and native wrapper)", "units verified: hashtab.c, objstack.c + objstack.h macros, vlobject.c + vlobject.h macros, allocate.c"]}
+
+
 TREE_ORACLE = "translation oracle: exhaustive enumeration of all derivations over all splits with the documented translation rules (spec/oracle.h), hash-consed; DAG side: one alternative per ALT occurrence"
 
 PROPS = {
@@ -124,6 +191,11 @@ PROPS = {
     "C08": {"plan": simple_plan("C08", "hRec.c", "one state = (grammar, non-sentence, lookahead x one_parse, recovery_match); minimal simple-recovery cost computed by the viable-prefix oracle over all (back position, forward skip) pairs", ["viable-prefix oracle (spec/oracle.h)"]), "home_faults": False, "label_prefix": "C08:"},
     "C09": {"plan": simple_plan("C09", "hC09.c", "one state = (grammar, input from ALL(N) or NEAR(k), one_parse x cost x recovery); inside the path the input is parsed with lookahead 0,1,2,-3,7 and debug levels 0,1,-1,6,3 and all observables are compared; with -DYAEP_VERIF every goto-cache hit is re-computed and compared", ["debug output goes to a sink (fprintf model evaluates arguments only)"]), "home_faults": False},
     "C10": {"plan": plan_C10, "home_faults": False},
+    "C13": {"plan": plan_C13, "home_faults": True},
+    "C19": {"plan": plan_C19, "home_faults": True},
+    "C17": {"plan": plan_C17, "home_faults": True},
+    "C14": {"plan": plan_C14, "home_faults": True},
+    "C15": {"plan": plan_C15, "home_faults": False},
     "C11": {"plan": plan_C11, "home_faults": False},
     "C05": {"plan": simple_plan("C05", "hC05.c", "one state = (grammar, sentence, lookahead x one_parse x cost)", [TREE_ORACLE, "derivation count capped at 1000"]), "home_faults": False},
 }
